@@ -390,6 +390,7 @@ func (g *Gen) node(depth int) *Node {
 			g.tests(n)
 			g.rewriteScenario(n)
 			g.pts(n)
+			n.DefOver = r.Fork(0xdef0).P(12)
 			return n
 		case c < g.P.PStruct+g.P.PSlice+g.P.PPtr:
 			n := &Node{Kind: KPtr, Elem: g.node(depth + 1)}
